@@ -59,6 +59,10 @@ SmallPool == {
     << <<"for", "k", ArrE(<<KB, KC>>)>> >> >>,
   Std("objectRemoveKey", <<ObjE(<<Fd("a", "d", N(1)), Fd("b", "h", N(2)), Fd("c", "d", N(3))>>), KA>>),
   Std("objectRemoveKey", <<ObjE(<<Fd("a", "d", N(1)), Fd("b", "d", Dot(Self, "a"))>>), KB>>),
+  ObjE(<<OAs(Bin(">", Dot(Self, "a"), N(2)), <<"none">>)>>),                       \* assert-only object (no fields)
+  ObjE(<<OLoc("l", N(1))>>),                                                           \* local-only object
+  <<"objcomp", V("k"), Plus(SupF("a"), N(1)), <<>>, << <<"for", "k", ArrE(<<KA, KB>>)>> >> >>,   \* comprehension reading super
+  <<"objcomp", V("k"), V("l"), <<OLoc("l", <<"insuper", KA>>)>>, << <<"for", "k", ArrE(<<KC>>)>> >> >>,  \* ... with an object local
   Std("objectRemoveKey", <<ObjE(<<Fd("a", "h", N(1)), Fd("b", "v", N(2)), Fd("c", "d", N(3))>>), KA>>),
   Std("objectRemoveKey", <<ObjE(<<Fd("a", "v", N(1)), Fd("b", "h", N(2))>>), KB>>),
   Std("mergePatch", <<ObjE(<<Fd("a", "d", N(1)), Fd("b", "d", ObjE(<<Fd("c", "d", N(2))>>))>>),
